@@ -119,6 +119,13 @@ func (c *CVal) Clone() any {
 	return &CVal{Vals: append([]string(nil), c.Vals...)}
 }
 
+// VVal is a Cloner with a value receiver, stored by value: the only in-place
+// mutation possible is through the backing array of its slice.
+type VVal struct{ Vals []string }
+
+// Clone implements the generated parser's Cloner interface.
+func (v VVal) Clone() any { return VVal{Vals: append([]string(nil), v.Vals...)} }
+
 // Node is what actions return.
 type Node struct {
 	Site int
@@ -165,6 +172,8 @@ func Render(v any) string {
 		return fmt.Sprintf("N%d.%d%q", v.Site, v.N, v.Text)
 	case *CVal:
 		return "C{" + strings.Join(v.Vals, ",") + "}"
+	case VVal:
+		return "V{" + strings.Join(v.Vals, ",") + "}"
 	case error:
 		return "err(" + v.Error() + ")"
 	case bool, int, uint64:
@@ -307,6 +316,10 @@ func (p *Plan) StateOps(site, n int) []StateOp {
 		switch sel := int(h>>40) % 10; {
 		case sel < 2:
 			ops = append(ops, StateOp{"del", key, ""})
+		case isC && sel == 2:
+			ops = append(ops, StateOp{"nil", key, ""}) // a key holding nil is a key
+		case isC && sel == 3:
+			ops = append(ops, StateOp{"vmut", "w" + key[1:], val})
 		case isC && sel < 6:
 			ops = append(ops, StateOp{"cmut", "c" + key[1:], val})
 		case isC:
@@ -333,6 +346,14 @@ func ApplyReal(st map[string]any, ops []StateOp) {
 				c.Vals = append(c.Vals, op.Val) // in place, on purpose
 			} else {
 				st[op.Key] = &CVal{Vals: []string{op.Val}}
+			}
+		case "nil":
+			st[op.Key] = nil
+		case "vmut":
+			if v, ok := st[op.Key].(VVal); ok && len(v.Vals) > 0 {
+				v.Vals[0] += "+" + op.Val // through the shared backing array, on purpose
+			} else {
+				st[op.Key] = VVal{Vals: []string{op.Val}}
 			}
 		}
 	}
@@ -368,6 +389,9 @@ func misbehave(st map[string]any, site, n int) {
 	for _, k := range keys {
 		if c, ok := st[k].(*CVal); ok {
 			c.Vals = append(c.Vals, "BAD")
+		}
+		if v, ok := st[k].(VVal); ok && len(v.Vals) > 0 {
+			v.Vals[0] += "+BAD"
 		}
 	}
 	for _, k := range keys {
@@ -425,6 +449,9 @@ func State(gs map[string]any, site, line, col, off int, text []byte, st map[stri
 func InitVal(s string) any {
 	if strings.HasPrefix(s, "C:") {
 		return &CVal{Vals: strings.Split(s[2:], ",")}
+	}
+	if strings.HasPrefix(s, "V:") {
+		return VVal{Vals: strings.Split(s[2:], ",")}
 	}
 	return s
 }
